@@ -325,6 +325,23 @@ example : LookAhead.boundedTrees.length = 2964 ∧
     (LookAhead.T.block (.last (.fstr (.part 1 .lit (.fin 1))))) ∈ LookAhead.boundedTrees := by
   decide +kernel
 
+/-- T6c′ (`block_fstring_all`). For EVERY f-string whose holes hold one
+    identifier or one literal — ANY number of text / hole parts, any texts
+    (`FlatParts`) — the blocks that begin with it, `{ f"…" }`, `{ f"…"; }` and
+    `{ f"…"; lit }`, parse (model with the generated look-ahead facts, the fuel
+    `parseAll` supplies) to the documented tree, the whole input consumed and
+    the queue empty: the look-ahead of `atom` never disturbs the f-string
+    scanner, whatever the f-string looks like. -/
+theorem block_fstring_all (ps : LookAhead.T) (h : LookAhead.FlatParts ps = true) :
+    ∀ e ∈ LookAhead.blockShapes ps, LookAhead.parseAll cfgGen (LookAhead.render e) = .ok e ⟨[], []⟩ :=
+  LookAhead.block_fstring_parse cfgGen (by decide) (by decide) ps h
+
+/-- non-vacuity: `{ f"hello {1} world" }` (the reviewer's witness) is an instance -/
+example : LookAhead.parseAll cfgGen [.n .lcurly, .n .fstart, .ftext 1, .n .lcurly, .n .lit, .n .rcurly, .fend 2, .n .rcurly] =
+    .ok (.block (.last (.fstr (.part 1 .lit (.fin 2))))) ⟨[], []⟩ := by
+  have := block_fstring_all (.part 1 .lit (.fin 2)) (by decide) (.block (.last (.fstr (.part 1 .lit (.fin 2))))) (by decide)
+  simpa [LookAhead.render, LookAhead.renderItems, LookAhead.renderParts] using this
+
 /-- T6d. Refutation on the tree before `fix: do not look ahead past the start
     of an f-string`: with no stop token the three-token window of `atom` lexes
     the text of `{ f"hello" }` in normal mode (the queue ends up with a junk
